@@ -314,6 +314,13 @@ def access_histories(ctx):
         if r.violated is None:
             raise core.MachineryError("deviation %s should be refuted by TLC" % dev)
         ctx.notes["deviation_%s" % dev] = "TLC counterexample: %s violated" % r.violated
+    # the same machine with UNBOUNDED content / edit numbers: inductive invariant discharged by Apalache (Apa_ComposeAccess.tla);
+    # without the cache (ApaDev_ComposeAccess.tla) the inductive step must be refuted
+    from . import apalache
+    apalache.obligations(ctx, [("base: Init => IndInv", "Apa_ComposeAccess", "Init0", "IndInv", 0, "NoError"),
+                               ("step: IndInv /\\ Next => IndInv'", "Apa_ComposeAccess", "IndInit", "IndInv", 1, "NoError"),
+                               ("IndInv => an accessor holds and serves documents only", "Apa_ComposeAccess", "IndInit", "Safe", 0, "NoError"),
+                               ("no cache: step refuted", "ApaDev_ComposeAccess", "IndInit", "IndInv", 1, "Error")])
     pref = CA.measure_pref()
     if pref is None:
         ctx.notes["access_histories"] = "skipped: the library's preference between current and legacy names could not be measured"
